@@ -33,6 +33,8 @@ def nontrivial(op, out):
     return out.startswith('ok') and '22' in out
 
 
+WS_LIKE = [' ', '\t', '\r', '\x0b', '\x0c', '\x1c', '\x1d', '\x1e', '\x1f', '\x85', '\xa0', '\u1680', '\u2000', '\u2003', '\u200a', '\u200b', '\u2028', '\u2029',
+           '\u202f', '\u205f', '\u3000', '\ufeff', '\x7f', '\x01']
 EXEC_KEYS = ['ExecStart', 'ExecStartPre', 'ExecStop', 'ExecStopPost', 'ExecReload', 'ExecStartPost']
 
 
@@ -64,13 +66,24 @@ def oracle(ctx):
         args = [a for a in args if a.strip(' \t') != '' or a == '']
         # write Exec= with the repository's own quoting so that the intended words are known
         cases.append(args)
+    # boundary placements: every white-space-like character (ASCII, Unicode White_Space, controls) at the start / end of the
+    # first / last word and as a word of its own — where trimming of the stored line would bite
+    forced = set()
+    for c in WS_LIKE:
+        for args in (['foo' + c], [c], ['foo', c], [c + 'foo'], ['a' + c, 'b'], [c, 'b'], ['foo' + c + c], ['x', 'foo' + c + 'bar' + c]):
+            forced.add(len(cases))
+            cases.append(args)
     qops = ['quote_words' + ''.join('\t' + hx(w) for w in args) for args in cases]
     qo = ctx.impl(qops)
     units, keep = [], []
-    for args, q in zip(cases, qo):
+    for ci, (args, q) in enumerate(zip(cases, qo)):
         if not q.startswith('ok x'):
             continue
         line = unhx(q[3:])
+        if ci in forced:
+            # every word wholly double-quoted in the unit file (a documented spelling), so that the reader's trimming of
+            # the *file's* line ends does not touch the words
+            line = ' '.join('"' + ''.join('\\x%02x' % ord(ch) if ord(ch) < 0x20 or ord(ch) == 0x7f else '\\' + ch if ch in '"\\' else ch for ch in w) + '"' for w in args)
         if '\n' in line:
             continue
         name = gen.rs(rnd, 5, ['a', 'b', ' ', 'é', '-', ':']).strip() or 'x'
